@@ -14,6 +14,9 @@ struct Simplifier {
     std::vector<GateTarget> qs1_buf;
     std::vector<GateTarget> qs2_buf;
     std::vector<GateTarget> qs_buf;
+    std::vector<GateTarget> ms1_buf;
+    std::vector<GateTarget> ms2_buf;
+    std::vector<GateTarget> plain_buf;
 
     Simplifier(size_t num_qubits, std::function<void(const CircuitInstruction &inst)> init_yield)
         : num_qubits(num_qubits), yield(init_yield), used(num_qubits) {
@@ -79,7 +82,13 @@ struct Simplifier {
     }
 
     void simplify_disjoint_1q_instruction(const CircuitInstruction &inst) {
-        const auto &ts = inst.targets;
+        // Result inversion (`!`) only makes sense on the measurement itself, not on the gates conjugating it.
+        const auto &ms = inst.targets;
+        plain_buf.clear();
+        for (auto t : inst.targets) {
+            plain_buf.push_back(GateTarget{t.data & ~TARGET_INVERTED_BIT});
+        }
+        SpanRef<const GateTarget> ts = plain_buf;
 
         switch (inst.gate_type) {
             case GateType::I:
@@ -222,7 +231,7 @@ struct Simplifier {
 
             case GateType::MX:
                 yield({GateType::H, {}, ts, inst.tag});
-                yield({GateType::M, {}, ts, inst.tag});
+                yield({GateType::M, {}, ms, inst.tag});
                 yield({GateType::H, {}, ts, inst.tag});
                 break;
             case GateType::MY:
@@ -230,16 +239,16 @@ struct Simplifier {
                 yield({GateType::S, {}, ts, inst.tag});
                 yield({GateType::S, {}, ts, inst.tag});
                 yield({GateType::H, {}, ts, inst.tag});
-                yield({GateType::M, {}, ts, inst.tag});
+                yield({GateType::M, {}, ms, inst.tag});
                 yield({GateType::H, {}, ts, inst.tag});
                 yield({GateType::S, {}, ts, inst.tag});
                 break;
             case GateType::M:
-                yield({GateType::M, {}, ts, inst.tag});
+                yield({GateType::M, {}, ms, inst.tag});
                 break;
             case GateType::MRX:
                 yield({GateType::H, {}, ts, inst.tag});
-                yield({GateType::M, {}, ts, inst.tag});
+                yield({GateType::M, {}, ms, inst.tag});
                 yield({GateType::R, {}, ts, inst.tag});
                 yield({GateType::H, {}, ts, inst.tag});
                 break;
@@ -248,13 +257,13 @@ struct Simplifier {
                 yield({GateType::S, {}, ts, inst.tag});
                 yield({GateType::S, {}, ts, inst.tag});
                 yield({GateType::H, {}, ts, inst.tag});
-                yield({GateType::M, {}, ts, inst.tag});
+                yield({GateType::M, {}, ms, inst.tag});
                 yield({GateType::R, {}, ts, inst.tag});
                 yield({GateType::H, {}, ts, inst.tag});
                 yield({GateType::S, {}, ts, inst.tag});
                 break;
             case GateType::MR:
-                yield({GateType::M, {}, ts, inst.tag});
+                yield({GateType::M, {}, ms, inst.tag});
                 yield({GateType::R, {}, ts, inst.tag});
                 break;
             case GateType::RX:
@@ -276,13 +285,25 @@ struct Simplifier {
     }
 
     void simplify_disjoint_2q_instruction(const CircuitInstruction &inst) {
-        const auto &ts = inst.targets;
+        // Result inversion (`!`) only makes sense on the measurement itself, not on the gates conjugating it.
+        plain_buf.clear();
+        for (auto t : inst.targets) {
+            plain_buf.push_back(t.has_qubit_value() ? GateTarget{t.data & ~TARGET_INVERTED_BIT} : t);
+        }
+        SpanRef<const GateTarget> ts = plain_buf;
         qs_buf.clear();
         qs1_buf.clear();
         qs2_buf.clear();
+        ms1_buf.clear();
+        ms2_buf.clear();
         for (size_t k = 0; k < inst.targets.size(); k += 2) {
             auto a = inst.targets[k];
             auto b = inst.targets[k + 1];
+            if (a.has_qubit_value() && b.has_qubit_value()) {
+                bool inverted = a.is_inverted_result_target() ^ b.is_inverted_result_target();
+                ms1_buf.push_back(GateTarget::qubit(a.qubit_value(), inverted));
+                ms2_buf.push_back(GateTarget::qubit(b.qubit_value(), inverted));
+            }
             if (a.has_qubit_value()) {
                 auto t = GateTarget::qubit(a.qubit_value());
                 qs1_buf.push_back(t);
@@ -446,7 +467,7 @@ struct Simplifier {
             case GateType::MXX:
                 yield({GateType::CX, {}, ts, inst.tag});
                 yield({GateType::H, {}, qs1_buf, inst.tag});
-                yield({GateType::M, {}, qs1_buf, inst.tag});
+                yield({GateType::M, {}, ms1_buf, inst.tag});
                 yield({GateType::H, {}, qs1_buf, inst.tag});
                 yield({GateType::CX, {}, ts, inst.tag});
                 break;
@@ -456,14 +477,14 @@ struct Simplifier {
                 yield({GateType::S, {}, qs2_buf, inst.tag});
                 yield({GateType::S, {}, qs2_buf, inst.tag});
                 yield({GateType::H, {}, qs1_buf, inst.tag});
-                yield({GateType::M, {}, qs1_buf, inst.tag});
+                yield({GateType::M, {}, ms1_buf, inst.tag});
                 yield({GateType::H, {}, qs1_buf, inst.tag});
                 yield({GateType::CX, {}, ts, inst.tag});
                 yield({GateType::S, {}, qs_buf, inst.tag});
                 break;
             case GateType::MZZ:
                 yield({GateType::CX, {}, ts, inst.tag});
-                yield({GateType::M, {}, qs2_buf, inst.tag});
+                yield({GateType::M, {}, ms2_buf, inst.tag});
                 yield({GateType::CX, {}, ts, inst.tag});
                 break;
 
